@@ -127,6 +127,90 @@ func runSelfTest(c *Ctx, p *propDef, verif string) {
 	}
 }
 
+// runNeutralTest analyses the behaviour-preserving refactorings filed for the
+// property (<verif>/neutral/<id>-k and w2-<id>-k): applied in memory (with the
+// rename normalisation, as in a normal run), the property's rules must report
+// nothing they do not report on the working tree. A rule that speaks up makes
+// the run undecided: the checker, not the code, is at fault.
+func runNeutralTest(c *Ctx, p *propDef, verif string) {
+	base := map[string]bool{}
+	for _, o := range c.Obs {
+		if o.Status == Violated || o.Status == Undecided {
+			base[o.Rule+"|"+o.Construct] = true
+		}
+	}
+	var dirs []string
+	for _, pat := range []string{p.ID + "-*", "w?-" + p.ID + "-*"} {
+		m, _ := filepath.Glob(filepath.Join(verif, "neutral", pat, "patch.diff"))
+		dirs = append(dirs, m...)
+	}
+	sort.Strings(dirs)
+	for _, pf := range dirs {
+		name := "neutral:" + filepath.Base(filepath.Dir(pf))
+		res := SelfTestResult{Variant: name, Rule: "(none may fire)", Expect: "silence"}
+		files, err := parseUnifiedDiff(pf)
+		if err != nil {
+			res.Skipped = "patch unreadable"
+			c.selfTest = append(c.selfTest, res)
+			continue
+		}
+		overlay := map[string][]byte{}
+		stale := false
+		for rel, hunks := range files {
+			path := filepath.Join(c.W.RepoDir, rel)
+			src, err := os.ReadFile(path)
+			text := string(src)
+			if err != nil {
+				// a file the refactoring creates
+				text = ""
+			}
+			for _, h := range hunks {
+				if h[0] == "" && text == "" {
+					text = h[1]
+					continue
+				}
+				if !strings.Contains(text, h[0]) {
+					stale = true
+					break
+				}
+				text = strings.Replace(text, h[0], h[1], 1)
+			}
+			overlay[path] = []byte(text)
+		}
+		if stale {
+			res.Skipped = "the context of the refactoring is not in the current source"
+			c.selfTest = append(c.selfTest, res)
+			continue
+		}
+		w2, err := loadWorldNormalized(c.W.RepoDir, overlay, "")
+		if err != nil {
+			res.Skipped = "variant does not load: " + firstLine(err.Error())
+			c.selfTest = append(c.selfTest, res)
+			theWorld = c.W
+			continue
+		}
+		c2 := runRules(w2, p, "quick")
+		theWorld = c.W
+		var spoke []string
+		for _, o := range c2.Obs {
+			if (o.Status == Violated || o.Status == Undecided) && !base[o.Rule+"|"+o.Construct] {
+				spoke = append(spoke, fmt.Sprintf("%s/%s/%s", o.Rule, o.Construct, o.Status))
+			}
+		}
+		res.Fired = len(spoke) == 0 // "fired" = behaved as expected
+		if len(spoke) > 0 {
+			res.Detail = "reported on a behaviour-preserving refactoring: " + strings.Join(spoke, ", ")
+			c.curRule = p.ID + ".neutral"
+			c.add("selftest:"+name, 0, Undecided, res.Detail)
+		} else {
+			res.Detail = "silent, as it must be"
+		}
+		c.selfTest = append(c.selfTest, res)
+		w2, c2 = nil, nil
+		runtime.GC()
+	}
+}
+
 func firstLine(s string) string {
 	if i := strings.IndexByte(s, '\n'); i >= 0 {
 		return s[:i]
